@@ -37,7 +37,16 @@ def famA_bigindex(rng, tier):
     return out
 
 
-A_FAMILIES = {'profile': famA_profile, 'bigindex': famA_bigindex}
+def famA_profile_async(rng, tier):
+    return famA_profile(rng, tier, kinds=['100', '101', '110', '111'])
+
+
+def famA_profile_spawn(rng, tier):
+    return famA_profile(rng, tier, kinds=['001', '011', '101', '111'])
+
+
+A_FAMILIES = {'profile': famA_profile, 'bigindex': famA_bigindex, 'profile_async': famA_profile_async,
+              'profile_spawn': famA_profile_spawn}
 
 
 def dedup(cases):
@@ -145,13 +154,25 @@ def run_B(fams, rng, tier, name='b', fam_args=None):
         expr = ('(check_rt %s %s_i %s_t %s_o + 1000000000 * (check_mm %s %s_i %s_t + 1000000000 * check_gen %s %s_i %s_g))%%N'
                 % (cfg, nm, nm, nm, cfg, nm, nm, cfg, nm, nm))
         items.append((defs, expr))
+        d['_defs'], d['_nm'] = defs, nm
         idx.append(d)
     vals = jv.run_coq_shards(items, header=B_HEADER, tag='B')
     for d, v in zip(idx, vals):
         d['rt_code'] = v % 1000000000
         d['mm_code'] = (v // 1000000000) % 1000000000
         d['a_code'] = v // (1000000000 ** 2)
+    # phase 2: the strings (Spec's and the model's result+trace) for the cases that differ, in one sharded run
+    differing = [d for d in idx if d['rt_code'] or d['a_code'] or d['mm_code']][:MAX_EXAMINED]
+    sitems = []
+    for d in differing:
+        cfg = jv.cconfig(d['kind'])
+        sitems.append((d['_defs'], ['spec_run %s %s_i %s_t' % (cfg, d['_nm'], d['_nm']), 'model_run %s %s_i %s_t' % (cfg, d['_nm'], d['_nm'])]))
+    for d, v in zip(differing, jv.run_coq_strings(sitems, header=B_HEADER, tag='Bs')):
+        d['exp'] = {'spec': v[0], 'model': v[1]}
     return out
+
+
+MAX_EXAMINED = 48
 
 
 def expected_strings(d):
@@ -236,6 +257,68 @@ PROJ = {'result': proj_result, 'exact': proj_exact, 'multiset': proj_multiset, '
         'abort': proj_abort, 'caps': proj_caps}
 
 
+# ============================================================================= B4: async kinds under a controlled executor
+# oracles on the REAL observation trace of a disagreeing run (tokens: 'N k b' chain created, 'T k b' polled, 'E k b e' event,
+# 'C k b g r' gate polled, 'D k b ok' chain completed, 'R:pending|ok|err k b' result of a root poll, 'G' polled after completion, 'W' root notified)
+
+def _steps_of_trace(tr):
+    out = []
+    for t in tr:
+        f = t.split()
+        if f[0] in ('N', 'T', 'E', 'C', 'D'):
+            out.append((f[0], int(f[1]), int(f[2]), f))
+        else:
+            out.append((f[0], None, None, f))
+    return out
+
+
+def b4_barrier(d):
+    done = set()
+    for (t, k, b, f) in _steps_of_trace(d['real'] or []):
+        if k is None:
+            continue
+        for k0 in range(k):
+            for b0, dep in enumerate(d['depths']):
+                if dep > k0 and (k0, b0) not in done:
+                    return 'observation %s of step %d before branch %d completed step %d' % (' '.join(f), k, b0, k0)
+        if t == 'D':
+            done.add((k, b))
+
+
+def b4_lazy_complete(d):
+    tr = d['real'] or []
+    acts = d['actions'].split()
+    if 'P' not in acts and tr:
+        return 'observations %s although the future was never polled' % tr[:5]
+    m = d['model'] or []
+    if any(t == 'R:ok' or t.startswith('R:err') for t in m) and not any(t == 'R:ok' or t.startswith('R:err') for t in tr):
+        return 'the future does not complete under this wake-up order (the machine does)'
+    return b4_barrier(d)
+
+
+def b4_try_abort(d):
+    tr = _steps_of_trace(d['real'] or [])
+    fail_step = None
+    for (t, k, b, f) in tr:
+        if fail_step is not None and k is not None and k > fail_step:
+            return 'observation %s of step %d after a branch failed in step %d' % (' '.join(f), k, fail_step)
+        if t == 'D' and f[3] == '0' and fail_step is None:
+            fail_step = k
+        if t == 'R:ok' and fail_step is not None:
+            return 'Ok result although a branch failed in step %d' % fail_step
+        if t == 'R:err' and fail_step is not None and int(f[1]) != fail_step:
+            return 'error of step %s returned, earliest failing step is %d' % (f[1], fail_step)
+
+
+B4_PROJ = {'barrier': b4_barrier, 'lazy_complete': b4_lazy_complete, 'try_abort': b4_try_abort}
+
+
+def run_B4(pid, P, seed, tier):
+    import bstage_async
+    n = P.get('B4_n', 36) if tier == 'quick' else P.get('B4_n', 36) * 6
+    return bstage_async.corr_B4(seed, n, 'quick' if tier == 'quick' else 'normal', kinds=P.get('B4_kinds'))
+
+
 # ============================================================================= per-property run
 
 def nontrivial(text):
@@ -282,8 +365,8 @@ def run_property(pid, P, rng, tier, seed, escalate=False, only_B=False):
             if d['a_code']:
                 rep['A_diffs'].append({'family': d['family'], 'kind': d['kind'], 'text': d['text'], 'code': d['a_code'], 'status': 'diff'})
             if d['rt_code'] or (d['a_code'] and P.get('proj')):
-                exp = expected_strings(d)
-                if exp['spec'] is None:
+                exp = d.get('exp')
+                if not exp or not exp['spec']:
                     continue
                 if d['rt_code']:
                     rep['B_diffs'].append({'family': d['family'], 'macro': d['macro'], 'text': d['text'], 'code': d['rt_code'],
@@ -299,7 +382,24 @@ def run_property(pid, P, rng, tier, seed, escalate=False, only_B=False):
         for d in res[:3]:
             if d['observed']:
                 rep['samples'].append({'stage': 'B', 'macro': d['macro'], 'dsl': d['text'][:300], 'observed': ' '.join(d['observed'])[:300]})
-    rep['distinct_nontrivial'] = len(distinct)
+    if P.get('B4'):
+        r4 = run_B4(pid, P, seed, tier)
+        rep['B_cases'] += r4['runs']
+        rep['families']['B4:async'] = {'programs': r4['programs'], 'runs': r4['runs'], 'agree': r4['agree'], 'completed': r4['runs_completed'],
+                                       'macros': r4['distribution']['macro'], 'branches': r4['distribution']['branches'],
+                                       'gates': r4['distribution']['gates'], 'patterns': r4['distribution']['pattern']}
+        rep['b4_distinct'] = r4['runs']
+        for s4 in r4.get('samples', []):
+            rep['samples'].append(dict(s4, stage='B4'))
+        for d in r4['disagreements']:
+            rep['B_diffs'].append({'family': 'B4:async', 'macro': d['macro'], 'text': d['program'], 'code': d['first_diff'],
+                                   'expected': ';'.join(d['model'] or [])[:600], 'observed': ';'.join(d['real'] or [])[:600],
+                                   'actions': d['actions']})
+            why = B4_PROJ[P['B4']](d)
+            if why:
+                rep['witnesses'].append({'macro': d['macro'], 'dsl': d['program'], 'actions': d['actions'], 'why': why,
+                                         'observed': ';'.join(d['real'] or [])[:1500]})
+    rep['distinct_nontrivial'] = len(distinct) + rep.get('b4_distinct', 0)
     rep['rule'] = ('A: generated programs of the families %s expanded by the implementation and by the model (compared token for token inside Coq); '
                    'B: typed generated programs of the families %s compiled against /repo/join, run with instrumented operands, compared with the model '
                    '(den (gen p)) and the reference Spec under the same rule table; distinct = distinct (kind, DSL text); non-trivial = more than one '
